@@ -77,6 +77,28 @@ Theorem C20_oracle : forall c, valid c = true -> known c = 0 -> oracle c (run c)
 Proof. intros c Hv _. apply oracle_holds. exact Hv. Qed.
 Print Assumptions C20_oracle.
 
+(* "A password token encrypted for an earlier nonce is rejected", over histories: ANY history [pre],
+   then a token bound to the nonce of that moment (encrypted password or X.509 signature), ANY
+   further steps [mid], then a replay of exactly that token.  If any activation from the original
+   one on has succeeded, the replay is rejected.  ([codes] = the status codes of the run.) *)
+Theorem C20_replay_rejected : forall c pre t mid,
+  nonce_bound t = true ->
+  let steps := pre ++ (Fresh t :: mid) ++ [Replay (Z.of_nat (length pre))] in
+  let cs := codes (run_steps true c steps 0 1 []) in
+  In 0 (firstn (S (length mid)) (skipn (length pre) cs)) ->
+  nth (length pre + S (length mid)) cs 1 <> 0.
+Proof. exact replay_rejected. Qed.
+Print Assumptions C20_replay_rejected.
+
+(* the hypotheses are satisfiable: a configured user logs in with an encrypted password, the
+   replay of the token is refused, a newly encrypted one is accepted *)
+Example C20_example :
+  let c := mk_case [mk_ep 0 PNone 1 (Some PBasic256Sha256) [0; 1]] [mk_user 1 0 (Some 1) false None] 0 PNone 1
+             [Fresh (TUser PidOaep (Some 0) (Enc AlgOaep OaepSha1 NCur 1)); Replay 0;
+              Fresh (TUser PidOaep (Some 0) (Enc AlgOaep OaepSha1 NCur 1))] in
+  valid c = true /\ run c = [0; 0; 1; 5; 1; 0; 2] /\ oracle c (run c) = true.
+Proof. vm_compute. repeat split. Qed.
+
 (* the code before the fix: on a SecurityPolicy None channel the same encrypted token is accepted twice *)
 Theorem C20_legacy_refuted :
   valid legacy_witness = true /\ oracle legacy_witness (Legacy.run legacy_witness) = false /\
